@@ -125,4 +125,74 @@ theorem Ranked.shapeEq {rk : Nat → Nat} {s s' : State} (h : ShapeEq s s') (w :
     obtain ⟨o0, h0, -⟩ := hs.get hx
     exact w.nullMin n x o0 (h.1 ▸ hn) h0 hne
 
+
+/-- the tree part of the structural invariant (what the memlimit accounting relies on) -/
+structure WFt (s : State) : Prop where
+  parentLive : ∀ (x : Nat) o p, s.get x = some o → o.parent = some p →
+      ∃ po, s.get p = some po ∧ po.kind = .plain ∧ (x ∈ po.children ∨ o.pending = true)
+  childBack : ∀ (x : Nat) o c, s.get x = some o → c ∈ o.children →
+      ∃ co, s.get c = some co ∧ co.parent = some x ∧ co.pending = false
+  childNodup : ∀ (x : Nat) o, s.get x = some o → o.children.Nodup
+  leaf : ∀ (r : Nat) ro, s.get r = some ro → ro.kind ≠ .plain →
+      ro.children = [] ∧ ro.refs = [] ∧ ro.dtor = .none ∧ ro.pending = false
+
+theorem WFp.tree {s : State} (w : WFp s) : WFt s := ⟨w.parentLive, w.childBack, w.childNodup, w.leaf⟩
+
+/-- the fields the tree part looks at (reference lists of plain objects are not among them) -/
+def Obj.tshape (o : Obj) : Option Id × List Id × Kind × Bool × Dtor × List Id :=
+  (o.parent, o.children, o.kind, o.pending, o.dtor, if o.kind = .plain then [] else o.refs)
+
+theorem WFt.congr {s s' : State} (h : ∀ j : Nat, (s'.get j).map Obj.tshape = (s.get j).map Obj.tshape)
+    (w : WFt s) : WFt s' := by
+  have hg : ∀ {j : Nat} {o' : Obj}, s'.get j = some o' → ∃ o, s.get j = some o ∧ o'.tshape = o.tshape := by
+    intro j o' hj
+    have := h j
+    rw [hj] at this
+    cases h2 : s.get j with
+    | none => rw [h2] at this; cases this
+    | some o => rw [h2] at this; simp only [Option.map_some, Option.some.injEq] at this; exact ⟨o, rfl, this⟩
+  have hg' : ∀ {j : Nat} {o : Obj}, s.get j = some o → ∃ o', s'.get j = some o' ∧ o'.tshape = o.tshape := by
+    intro j o hj
+    have := h j
+    rw [hj] at this
+    cases h2 : s'.get j with
+    | none => rw [h2] at this; cases this
+    | some o' => rw [h2] at this; simp only [Option.map_some, Option.some.injEq] at this; exact ⟨o', rfl, this⟩
+  constructor
+  · intro x o p hx hp
+    obtain ⟨o0, h0, e⟩ := hg hx
+    simp only [Obj.tshape, Prod.mk.injEq] at e
+    obtain ⟨po, h1, hk, h2⟩ := w.parentLive x o0 p h0 (e.1 ▸ hp)
+    obtain ⟨po', h3, e'⟩ := hg' h1
+    simp only [Obj.tshape, Prod.mk.injEq] at e'
+    exact ⟨po', h3, by rw [e'.2.2.1]; exact hk, by rw [e'.2.1, e.2.2.2.1]; exact h2⟩
+  · intro x o c hx hc
+    obtain ⟨o0, h0, e⟩ := hg hx
+    simp only [Obj.tshape, Prod.mk.injEq] at e
+    obtain ⟨co, h1, h2, h3⟩ := w.childBack x o0 c h0 (e.2.1 ▸ hc)
+    obtain ⟨co', h4, e'⟩ := hg' h1
+    simp only [Obj.tshape, Prod.mk.injEq] at e'
+    exact ⟨co', h4, by rw [e'.1]; exact h2, by rw [e'.2.2.2.1]; exact h3⟩
+  · intro x o hx
+    obtain ⟨o0, h0, e⟩ := hg hx
+    simp only [Obj.tshape, Prod.mk.injEq] at e
+    rw [e.2.1]; exact w.childNodup x o0 h0
+  · intro r ro hr hk
+    obtain ⟨o0, h0, e⟩ := hg hr
+    simp only [Obj.tshape, Prod.mk.injEq] at e
+    have hk0 : o0.kind ≠ .plain := by rw [← e.2.2.1]; exact hk
+    obtain ⟨a1, a2, a3, a4⟩ := w.leaf r o0 h0 hk0
+    have er := e.2.2.2.2.2
+    simp only [hk, hk0, if_false] at er
+    exact ⟨by rw [e.2.1]; exact a1, by rw [er]; exact a2, by rw [e.2.2.2.2.1]; exact a3,
+      by rw [e.2.2.2.1]; exact a4⟩
+
+theorem WFt.shapeEq {s s' : State} (h : ShapeEq s s') (w : WFt s) : WFt s' := by
+  apply WFt.congr _ w
+  intro j
+  have := h.2 j
+  cases h1 : s'.get j <;> cases h2 : s.get j <;> rw [h1, h2] at this <;> simp [Obj.shape] at this ⊢
+  obtain ⟨e1, e2, e3, e4, e5, e6⟩ := this
+  simp [Obj.tshape, e1, e2, e3, e4, e5, e6]
+
 end Usual.C01
